@@ -466,3 +466,7 @@ add("s-iteration-estimate-handler-arithmetic-error", S, ["C07"], "dfols/trust_re
 add("alpha1-one-not-rejected", F, ["C18"], "dfols/solver.py", "    if exit_info is None and params(\"tr_radius.alpha1\") >= 1.0:\n        exit_info = ExitInformation(EXIT_INPUT_ERROR, \"tr_radius.alpha1 must be strictly less than 1\")\n", "", "C18-9")
 add("reduce-rho-constant-factor-one", F, ["C18"], "dfols/controller.py", "            new_rho = sqrt(ratio) * self.rhoend", "            new_rho = 1.0 * self.rho", "C18-9")
 add("alpha1-guard-weakened-to-strict", F, ["C07"], "dfols/solver.py", "    if exit_info is None and params(\"tr_radius.alpha1\") >= 1.0:", "    if exit_info is None and params(\"tr_radius.alpha1\") > 1.0:", "weakened-guard")
+
+# ---- C07-17: every cycle of the main loop passes a progress site
+add("main-loop-skips-iterations-while-delta-is-large", F, ["C07"], "dfols/solver.py", "        if do_logging:\n            module_logger.debug(\"*** Iter %g (delta = %g, rho = %g) ***\" % (current_iter, control.delta, control.rho))\n",
+    "        if do_logging:\n            module_logger.debug(\"*** Iter %g (delta = %g, rho = %g) ***\" % (current_iter, control.delta, control.rho))\n        if control.delta > 1e9:\n            control.delta = 0.5 * control.delta\n            continue\n", "C07-17")
